@@ -11,7 +11,7 @@ import random
 import struct
 
 from . import extract, seqops
-from .contract import Const, Elem, Facade, FixedList, Link, Obj, OpaqueField, Region, SeqOf, _Scalar
+from .contract import Const, Elem, Facade, FixedList, Link, Obj, OpaqueField, Region, RegionList, SeqOf, _Scalar
 from .core import Explorer, Path, PyRaise
 from .interp import Interp
 from .interp_call import Frame, number_loops
@@ -81,8 +81,16 @@ def random_concrete(spec, rnd, size_hint=6):
         cache = rnd.__dict__.setdefault("_regions", {})
         if spec.name in cache:
             return cache[spec.name]
-        n = rnd.randint(1, 7)
+        given = spec.sampler(rnd) if spec.sampler is not None else None
+        n = len(given) if given is not None else rnd.randint(1, 7)
         objs = [object.__new__(spec.cls) for _ in range(n)]
+        if given is not None:
+            for o, vals in zip(objs, given):
+                for f, v in vals.items():
+                    object.__setattr__(o, f, v)
+                object.__setattr__(o, "g_region", objs)
+            cache[spec.name] = objs
+            return objs
         for k, o in enumerate(objs):
             parent = None
             for f, fs in spec.fields.items():
@@ -103,6 +111,8 @@ def random_concrete(spec, rnd, size_hint=6):
             object.__setattr__(o, "g_region", objs)
         cache[spec.name] = objs
         return objs
+    if isinstance(spec, RegionList):
+        return random_concrete(spec.region, rnd, size_hint)
     if isinstance(spec, Elem):
         objs = random_concrete(spec.region, rnd, size_hint)
         if spec.optional and rnd.random() < 0.25:
